@@ -278,7 +278,7 @@ def _clip(case, rec):
 
 def _blank():
     return {"raised": "", "n": 0, "rows": [], "rec_rows": [], "bs": 0, "bd": 0, "src_ok": True, "src_n": 0, "axes": [],
-            "pre_raised": "", "reobs": [], "hist_raised": "",
+            "pre_raised": "", "reobs": [], "hist_raised": "", "fo": 0, "fn": 0,
             "red": {"dtype": "", "n": 0, "nonincr": 0, "c0": _limbs(0), "last": _limbs(0), "step": [], "maxdev": _limbs(0), "samples": []}}
 
 
@@ -286,6 +286,9 @@ def _flags(out, clip, sr):
     s, e = Fraction(clip.start_time), Fraction(clip.end_time)
     out["bs"] = _near(s * sr, s * sr)
     out["bd"] = _near((e - s) * sr, e * sr)
+    # the same two products rounded in double arithmetic (advisory: Drift/ClipFloatFloor)
+    out["fo"] = int(math.floor(clip.start_time * sr))
+    out["fn"] = int(math.floor((clip.end_time - clip.start_time) * sr))
 
 
 def execute(case):
@@ -437,6 +440,17 @@ def random_cases(rng, tier):
     yield _case("longclip", LONG_FR, LONG_TE, 128, 1, LONG_N, 3560, 3640)
     yield _case("longclip", LONG_FR, LONG_TE, 128, 1, LONG_N, 128 * rng.randrange(24, 28), 128 * 28 + rng.randrange(1, 700))
     yield _case("longclip", LONG_FR, LONG_TE, 128, 1, LONG_N, 5530 + rng.randrange(0, 25), 5560)
+    # clips that start later than 1 s, given in DECIMAL seconds (ms grid; many of them on sample boundaries whose double is
+    # slightly below the boundary: 2.3 s, 1.025 s at 16 kHz, 1.16 s at 44.1 kHz, 1.2 s at 22.05 kHz ...), 12.5 s files
+    mid = [(16000, (1, 1)), (22050, (1, 1)), (22050, (2, 1)), (24000, (2, 1)), (8000, (1, 1))]
+    fixed = [(16000, (1, 1), 2300), (16000, (1, 1), 1025), (22050, (2, 1), 1160), (22050, (1, 1), 1200), (24000, (2, 1), 3700),
+             (24000, (2, 1), 1041), (16000, (1, 1), 12345), (8000, (1, 1), 2300)]
+    for _ in range(40 if tier == "quick" else 400):
+        fr, te = rng.choice(mid)
+        fixed.append((fr, te, rng.randrange(1001, 12400)))
+    for fr, te, s in fixed:
+        sr = fr * te[0] // te[1]
+        yield _case("longclip", fr, te, 1000, 1, 25 * sr // 2, s, s + rng.choice([1, 10, 25, 40, 125]))
     n_clip, n_spec, n_res, n_rec = (700, 150, 120, 40) if tier == "quick" else (6000, 1200, 900, 300)
     for _ in range(n_rec):
         fr, te = rng.choice(_RATES)
